@@ -242,6 +242,22 @@ func (n *Node) serve(w http.ResponseWriter, r *http.Request) {
 	w.Write(out)
 }
 
+// Redispatch recomputes the i-th response of ex from the node's CURRENT chain. For use inside a
+// Before/After hook only (the node's lock is held there): lets a hook serve the tail of one batch
+// reply from a chain version different from its head - a reorg landing in the middle of a batch.
+func (n *Node) Redispatch(ex *Exchange, i int) {
+	if i < 0 || i >= len(ex.Requests) || i >= len(ex.Responses) {
+		return
+	}
+	req := ex.Requests[i]
+	res, rerr := n.dispatch(req)
+	if rerr != nil {
+		ex.Responses[i] = errResp(req.ID, rerr.code, rerr.msg)
+		return
+	}
+	ex.Responses[i] = map[string]any{"jsonrpc": "2.0", "id": req.ID, "result": res}
+}
+
 func invalid(format string, a ...any) *rpcError {
 	return &rpcError{-32602, "invalid params: " + fmt.Sprintf(format, a...)}
 }
